@@ -471,7 +471,7 @@ theorem bce_local_vjp_cases (bm : BMode) (H : Heap ℝ) (N : BceIds) (n : Nat) (
   refine ⟨A, B, G, _, h1, h2, h3, h4, rfl, by simp [hT, hP], ?_⟩
   intro i hi tv pv ht hp
   have hget : (List.zipWith (fun tv pv => bceGrad c n (tHat tv) pv) T P)[i]? = some (bceGrad c n (tHat tv) pv) := by
-    rw [List.getElem?_zipWith, ht, hp]; rfl
+    rw [List.getElem?_zipWith, ht, hp]
   refine ⟨fun a b => ?_, fun a => ?_⟩
   · rw [hget, bceGrad_inside c n _ pv a b]
   · rw [hget, bceGrad_outside c n _ pv a]
@@ -525,6 +525,198 @@ theorem reducerBroadcasted_const (a : ℝ) (m n : Nat) (hm : 0 < m) (hn : 0 < n)
     rw [broadcast_const _ hwf2 a (by intro x hx; exact List.eq_of_mem_replicate hx) [m, n] hpos hv]
     simp [Out.ofOpt, prod]
   simp only [reducerBroadcasted, bind, Out.bind, hu, hb]
+
+/-- the nodes of the graph `lossCompute .ce` builds that lie on the path from the loss to the prediction `p` -/
+structure CeIds where
+  /-- the prediction -/
+  p : Nat
+  /-- `lower = ε·p⁰`, `upper = (1−ε)·p⁰`, `pmin = ElMin(p, upper)`, `ph = p̂ = ElMax(lower, pmin)` -/
+  lo : Nat
+  up : Nat
+  pmin : Nat
+  ph : Nat
+  /-- `lg = Log(p̂)`; `s = Mul(t̂, lg)` on the broadcast operands `tb`, `lgb` -/
+  lg : Nat
+  tb : Nat
+  lgb : Nat
+  s : Nat
+  /-- `ln = Scale(SumAlong(s, 1), −1)`; loss = `MeanAlong(ln, 0)` -/
+  ln : Nat
+
+/-- loss → `ln` → `SumAlong(s,1)` → `s` → `lg` → `p̂` -/
+noncomputable def CeIds.pathA (N : CeIds) : List (Rule ℝ) :=
+  [.avgAlongX N.ln 0, .scaleX (-1), .sumAlongX N.s 1, .mulG N.tb, .bcastX N.lg N.lgb, .logX N.ph]
+/-- `p̂` → `pmin` → `p` -/
+noncomputable def CeIds.pathClip (N : CeIds) : List (Rule ℝ) := [.elext N.ph N.pmin N.lo, .elext N.pmin N.p N.up]
+
+/-- what the forward pass stored in those nodes (`m` rows, `n` classes; positions indexed by `Z`, row-major) -/
+structure CeVals {ι : Type} (H : Heap ℝ) (N : CeIds) (m n : Nat) (Z : List ι) (fP τ : ι → ℝ) : Prop where
+  p : H.val N.p = ⟨[m, n], Z.map fP⟩
+  lo : H.val N.lo = ⟨[m, n], Z.map (fun _ => 1 / 10 ^ 12)⟩
+  up : H.val N.up = ⟨[m, n], Z.map (fun _ => 1 - 1 / 10 ^ 12)⟩
+  pmin : H.val N.pmin = ⟨[m, n], Z.map (fun z => min (fP z) (1 - 1 / 10 ^ 12))⟩
+  ph : H.val N.ph = ⟨[m, n], Z.map (fun z => pHat (fP z))⟩
+  tb : H.val N.tb = ⟨[m, n], Z.map τ⟩
+  lg : (H.val N.lg).dims = [m, n]
+  lgb : (H.val N.lgb).dims = [m, n]
+  s : (H.val N.s).dims = [m, n]
+  ln : (H.val N.ln).dims = [m]
+
+/-- the gradient CE's graph delivers to prediction `pv` with target `tv`, batch size `m`, upstream `c` -/
+noncomputable def ceGrad (c : ℝ) (m : Nat) (τ pv : ℝ) : ℝ :=
+  c * (-1 / (m : ℝ)) * (τ / pHat pv) * clipD (1 / 10 ^ 12) (1 - 1 / 10 ^ 12) pv
+
+/-- strictly inside the band: the derivative of the CE formula (`ce_deriv`) times `c / m` -/
+theorem ceGrad_inside (c : ℝ) (m : Nat) (τ pv : ℝ) (h1 : 1 / 10 ^ 12 + 1 / 10 ^ 240 < pv)
+    (h2 : pv < 1 - 1 / 10 ^ 12 - 1 / 10 ^ 240) : ceGrad c m τ pv = c * (-1 / (m : ℝ)) * (τ / pv) := by
+  have hθ : (0 : ℝ) < 1 / 10 ^ 240 := by positivity
+  unfold ceGrad
+  rw [(clipD_cases _ _ pv (by norm_num)).1 h1 h2, pHat_inside pv (by linarith) (by linarith), mul_one]
+
+/-- strictly outside the band: 0 -/
+theorem ceGrad_outside (c : ℝ) (m : Nat) (τ pv : ℝ)
+    (h : pv < 1 / 10 ^ 12 - 1 / 10 ^ 240 ∨ 1 - 1 / 10 ^ 12 + 1 / 10 ^ 240 < pv) : ceGrad c m τ pv = 0 := by
+  unfold ceGrad
+  rcases h with h | h
+  · rw [(clipD_cases _ _ pv (by norm_num)).2.1 h, mul_zero]
+  · rw [(clipD_cases _ _ pv (by norm_num)).2.2 h, mul_zero]
+
+/-- **CE, local backward pass** (positions indexed by `Z`): seeded with `c` on the scalar loss, through MeanAlong(0),
+    Scale(−1), SumAlong(1) (rule `reducerBroadcasted`: UnSqueeze + Broadcast *forward* operations), Mul, Log and the
+    clip, position `z` of the prediction receives `ceGrad c m (τ z) (p z)`. The mode of the Broadcast *rule* does not
+    matter: the statement holds for both. -/
+theorem ce_local_vjp_gen {ι : Type} (bm : BMode) (H : Heap ℝ) (N : CeIds) (m n : Nat) (hm : 0 < m) (hn : 0 < n)
+    (Z : List ι) (hZmn : Z.length = m * n) (fP τ : ι → ℝ) (hv : CeVals H N m n Z fP τ) (c : ℝ) :
+    ∃ G, pullPath bm H N.pathA ⟨[], [c]⟩ = .ok G ∧
+      pullPath bm H N.pathClip G = .ok ⟨[m, n], Z.map (fun z => ceGrad c m (τ z) (fP z))⟩ := by
+  have hZ : Z.length = prod [m, n] := by simp [prod, hZmn]
+  have hd : ∀ x ∈ [m, n], 0 < x := by simp; omega
+  have e0 := r_avg1 bm H (Z := List.range m) N.ln m c hm hv.ln (by simp)
+  have e1 := r_scale bm H (d := [m]) (Z := List.range m) (-1) (fun _ => 1 / (m : ℝ) * c)
+  have e2 : evalRule bm H ⟨[m], (List.range m).map (fun _ => -1 * (1 / (m : ℝ) * c))⟩ (.sumAlongX N.s 1)
+      = .ok ⟨[m, n], Z.map (fun _ => -1 * (1 / (m : ℝ) * c))⟩ := by
+    simp only [evalRule, hv.s]
+    rw [List.map_const', List.length_range, reducerBroadcasted_const _ m n hm hn, List.map_const', hZmn]
+  have a2 := r_mul bm H hZ hd hv.tb (fun z => -1 * (1 / (m : ℝ) * c))
+  have a3 := r_log bm H hZ hd hv.ph (fun z => -1 * (1 / (m : ℝ) * c) * τ z)
+  have hA : pullPath bm H N.pathA ⟨[], [c]⟩
+      = .ok ⟨[m, n], Z.map (fun z => -1 * (1 / (m : ℝ) * c) * τ z * (1 / pHat (fP z)))⟩ := by
+    unfold CeIds.pathA
+    rw [pullPath_cons bm H e0, pullPath_cons bm H e1, pullPath_cons bm H e2, pullPath_cons bm H a2,
+      pullPath_cons bm H (r_bcast bm H _ (by rw [hv.lg, hv.lgb])), pullPath_cons bm H a3, pullPath_nil]
+  refine ⟨_, hA, ?_⟩
+  unfold CeIds.pathClip
+  rw [clip_local_vjp bm H hZ hd N.p N.lo N.up N.pmin N.ph _ _ fP _ hv.p hv.lo hv.up hv.pmin hv.ph]
+  congr 2
+  apply List.map_congr_left
+  intro z _
+  unfold ceGrad
+  ring
+
+/-- the same node values stated on the row-major data of the two inputs -/
+structure CeNodeVals (H : Heap ℝ) (N : CeIds) (m n : Nat) (T P : List ℝ) : Prop where
+  p : H.val N.p = ⟨[m, n], P⟩
+  lo : H.val N.lo = ⟨[m, n], P.map (fun _ => 1 / 10 ^ 12)⟩
+  up : H.val N.up = ⟨[m, n], P.map (fun _ => 1 - 1 / 10 ^ 12)⟩
+  pmin : H.val N.pmin = ⟨[m, n], P.map (fun pv => min pv (1 - 1 / 10 ^ 12))⟩
+  ph : H.val N.ph = ⟨[m, n], P.map pHat⟩
+  tb : H.val N.tb = ⟨[m, n], T.map tHat⟩
+  lg : (H.val N.lg).dims = [m, n]
+  lgb : (H.val N.lgb).dims = [m, n]
+  s : (H.val N.s).dims = [m, n]
+  ln : (H.val N.ln).dims = [m]
+
+theorem CeNodeVals.toVals {H : Heap ℝ} {N : CeIds} {m n : Nat} {T P : List ℝ} (hT : T.length = m * n)
+    (hP : P.length = m * n) (h : CeNodeVals H N m n T P) :
+    CeVals H N m n (T.zip P) (fun z => z.2) (fun z => tHat z.1) where
+  p := by rw [h.p, List.map_snd_zip (by omega)]
+  lo := by rw [h.lo, map_zip_snd (fun _ => (1 : ℝ) / 10 ^ 12) T P (by omega)]
+  up := by rw [h.up, map_zip_snd (fun _ => (1 : ℝ) - 1 / 10 ^ 12) T P (by omega)]
+  pmin := by rw [h.pmin, map_zip_snd (fun pv => min pv ((1 : ℝ) - 1 / 10 ^ 12)) T P (by omega)]
+  ph := by rw [h.ph, map_zip_snd pHat T P (by omega)]
+  tb := by rw [h.tb, map_zip_fst tHat T P (by omega)]
+  lg := h.lg
+  lgb := h.lgb
+  s := h.s
+  ln := h.ln
+
+/-- **CE, local backward pass**: for every batch size `m ≥ 1`, class count `n ≥ 1`, all predictions `P`, all targets `T`
+    (row-major) and every upstream gradient `c`: the prediction receives, at row-major position `k`,
+    `ceGrad c m (tHat T_k) P_k = c · (−1/m) · t̂_k/p̂_k · clipD ε (1−ε) P_k` — for both modes of the Broadcast rule. -/
+theorem ce_local_vjp (bm : BMode) (H : Heap ℝ) (N : CeIds) (m n : Nat) (hm : 0 < m) (hn : 0 < n) (T P : List ℝ)
+    (hT : T.length = m * n) (hP : P.length = m * n) (hv : CeNodeVals H N m n T P) (c : ℝ) :
+    ∃ G, pullPath bm H N.pathA ⟨[], [c]⟩ = .ok G ∧
+      pullPath bm H N.pathClip G = .ok ⟨[m, n], List.zipWith (fun tv pv => ceGrad c m (tHat tv) pv) T P⟩ := by
+  obtain ⟨G, h1, h2⟩ := ce_local_vjp_gen bm H N m n hm hn (T.zip P) (by simp [hT, hP])
+    (fun z => z.2) (fun z => tHat z.1) (hv.toVals hT hP) c
+  refine ⟨G, h1, ?_⟩
+  rw [h2, C12x.zipWith_as_map]
+
+/-- **CE gradient = derivative of the CE formula where the prediction is strictly inside the clip band, 0 where it is
+    strictly outside**: element `(i, j)` (row `i`, class `j`) receives `c · (−1/m) · t̂ᵢⱼ / pᵢⱼ`, resp. `0`. -/
+theorem ce_local_vjp_cases (bm : BMode) (H : Heap ℝ) (N : CeIds) (m n : Nat) (hm : 0 < m) (hn : 0 < n) (T P : List ℝ)
+    (hT : T.length = m * n) (hP : P.length = m * n) (hv : CeNodeVals H N m n T P) (c : ℝ) :
+    ∃ G K, pullPath bm H N.pathA ⟨[], [c]⟩ = .ok G ∧ pullPath bm H N.pathClip G = .ok K ∧ K.dims = [m, n] ∧
+      ∀ (i j : Nat) (hi : i < m) (hj : j < n) (tv pv : ℝ),
+        (⟨[m, n], T⟩ : Tensor ℝ).at? [i, j] = some tv → (⟨[m, n], P⟩ : Tensor ℝ).at? [i, j] = some pv →
+        (1 / 10 ^ 12 + 1 / 10 ^ 240 < pv → pv < 1 - 1 / 10 ^ 12 - 1 / 10 ^ 240 →
+          K.at? [i, j] = some (c * (-1 / (m : ℝ)) * (tHat tv / pv))) ∧
+        (pv < 1 / 10 ^ 12 - 1 / 10 ^ 240 ∨ 1 - 1 / 10 ^ 12 + 1 / 10 ^ 240 < pv → K.at? [i, j] = some 0) := by
+  obtain ⟨G, h1, h2⟩ := ce_local_vjp bm H N m n hm hn T P hT hP hv c
+  refine ⟨G, _, h1, h2, rfl, ?_⟩
+  intro i j hi hj tv pv ht hp
+  rw [C12x.at?_rank2 m n _ i j hi hj] at ht hp ⊢
+  have hget : (List.zipWith (fun tv pv => ceGrad c m (tHat tv) pv) T P)[i * n + j]? = some (ceGrad c m (tHat tv) pv) := by
+    rw [List.getElem?_zipWith, ht, hp]
+  refine ⟨fun a b => ?_, fun a => ?_⟩
+  · rw [hget, ceGrad_inside c m _ pv a b]
+  · rw [hget, ceGrad_outside c m _ pv a]
+
+/-! ## The delivered values are the partial derivatives of the loss formulas -/
+
+/-- partial derivative of a sum of per-position terms with respect to one position -/
+theorem hasDerivAt_sum_update {κ : Type} [Fintype κ] [DecidableEq κ] (F : κ → ℝ → ℝ) (x : κ → ℝ) (i : κ) (F' : ℝ)
+    (hF : HasDerivAt (F i) F' (x i)) :
+    HasDerivAt (fun s => ∑ k, F k (Function.update x i s k)) F' (x i) := by
+  have h : ∀ k ∈ (Finset.univ : Finset κ),
+      HasDerivAt (fun s => F k (Function.update x i s k)) (if k = i then F' else 0) (x i) := by
+    intro k _
+    by_cases hk : k = i
+    · subst hk
+      simp only [Function.update_self, if_true]
+      exact hF
+    · simp only [Function.update_of_ne hk, hk, if_false]
+      exact hasDerivAt_const _ _
+  have := HasDerivAt.fun_sum h
+  simpa using this
+
+/-- **the BCE formula** `−(1/n) Σₖ [tₖ·log pₖ + (1−tₖ)·log(1−pₖ)]`, differentiated with respect to `pᵢ ∈ (0,1)`:
+    `(−1/n)·(tᵢ/pᵢ − (1−tᵢ)/(1−pᵢ))` — the value `bce_local_vjp_cases` finds at position `i` (with `c = 1`, `t = t̂`). -/
+theorem bce_formula_deriv {n : ℕ} (t x : Fin n → ℝ) (i : Fin n) (h0 : 0 < x i) (h1 : x i < 1) :
+    HasDerivAt (fun s => -(1 / (n : ℝ)) * ∑ k, (t k * Real.log (Function.update x i s k)
+        + (1 - t k) * Real.log (1 - Function.update x i s k)))
+      (-1 / (n : ℝ) * (t i / x i - (1 - t i) / (1 - x i))) (x i) := by
+  have hd := bce_deriv (t i) (x i) h0 h1
+  have hs := hasDerivAt_sum_update (fun k y => -(t k * Real.log y + (1 - t k) * Real.log (1 - y))) x i _ hd
+  have := hs.const_mul (1 / (n : ℝ))
+  refine (this.congr_deriv (by ring)).congr_of_eventuallyEq ?_
+  filter_upwards with s
+  simp only [Finset.sum_neg_distrib]
+  ring
+
+/-- **the CE formula** `−(1/m) Σᵢ Σⱼ tᵢⱼ·log pᵢⱼ`, differentiated with respect to `pᵢⱼ ≠ 0`: `(−1/m)·tᵢⱼ/pᵢⱼ` — the value
+    `ce_local_vjp_cases` finds at element `(i, j)` (with `c = 1`, `t = t̂`). -/
+theorem ce_formula_deriv {m n : ℕ} (t x : Fin m × Fin n → ℝ) (ij : Fin m × Fin n) (h0 : x ij ≠ 0) :
+    HasDerivAt (fun s => -(1 / (m : ℝ)) * ∑ i, ∑ j, t (i, j) * Real.log (Function.update x ij s (i, j)))
+      (-1 / (m : ℝ) * (t ij / x ij)) (x ij) := by
+  have hd := ce_deriv (t ij) (x ij) h0
+  have hs := hasDerivAt_sum_update (fun k y => -(t k * Real.log y)) x ij _ hd
+  have := hs.const_mul (1 / (m : ℝ))
+  refine (this.congr_deriv (by ring)).congr_of_eventuallyEq ?_
+  filter_upwards with s
+  rw [← Finset.sum_product']
+  simp only [Finset.sum_neg_distrib, Finset.univ_product_univ]
+  ring
 
 end C13x
 end Qeep
